@@ -115,6 +115,13 @@ func cmdSelftest(args []string) int {
 		os.RemoveAll(dir)
 		var failed []string
 		for _, r := range results {
+			if r.q != nil && r.q.Ob != nil && r.q.Ob.mustSat {
+				// cover checks: only a refuted cover (vacuity) counts
+				if r.Result == "vacuous" && r.Kind == "cover" {
+					failed = append(failed, r.Name)
+				}
+				continue
+			}
 			switch r.Result {
 			case "sat", "disagree", "unknown", "timeout", "error":
 				failed = append(failed, r.Name)
